@@ -5,7 +5,7 @@ with the drawing, the plane compared with the model's layout, the evaluation com
 corruptions and arbitrary text must be recognised or rejected, never panic."""
 import json
 
-from vlib import core
+from vlib import core, coqterm
 from props import c03, c19draw
 
 HEADER = ('From Coq Require Import List NArith Bool.\nFrom DV Require Import C19.Model C19.Proofs.\nImport ListNotations.\nOpen Scope N_scope.\n')
@@ -294,6 +294,34 @@ def canvas_outcome_text(m):
             'plane': [[['R', c.args[0], list(c.args[1]), txt(c.args[2])] if c.name == 'CRegion' else inv[c.name] for c in row] for row in plane]}
 
 
+def regular_drawings(ctx, n):
+    """coq/C19/CanvasDraw.v against the code: for random regular tables (any widths from 0, random plain texts) the text `draw d` made by the
+    Gallina drawing function is scanned by canvas.rs into exactly `expected_plane d` (the plane the theorems are about)."""
+    rng = ctx.rng
+    alphabet = 'abcXYZ019 -<>=",.()'
+    terms = []
+    for _ in range(n):
+        ni, no, na, nr = rng.randint(1, 4), rng.randint(1, 3), rng.choice([0, 0, 1, 2]), rng.randint(1, 5)
+        ws = [rng.randint(0, 6) for _ in range(1 + ni + no + na)]
+        cell = lambda j: coq_points(''.join(rng.choice(alphabet) for _ in range(ws[j])))
+        lst = lambda a, b: '[' + '; '.join(cell(j) for j in range(a, b)) + ']'
+        rules = '; '.join('(%s, %s, %s, %s)' % (cell(0), lst(1, 1 + ni), lst(1 + ni, 1 + ni + no), lst(1 + ni + no, len(ws))) for _ in range(nr))
+        terms.append('let d := table_drawing (Build_stable %s %s %s %s [%s]) in (wf_rdraw d, draw d, expected_plane d)'
+                     % (cell(0), lst(1, 1 + ni), lst(1 + ni, 1 + ni + no), lst(1 + ni + no, len(ws)), rules))
+    res = ctx.run_model(CANVAS_HEADER.replace('C19.Canvas.', 'C19.Canvas C19.CanvasDraw.'), terms, shard_size=10, tag='cvr')
+    texts = [''.join(chr(c) for c in r[1]) for r in res]
+    impl = ctx.run_impl('canvas', [{'text': t} for t in texts], shards=4)
+    bad = 0
+    for term, r, t, im in zip(terms, res, texts, impl):
+        ctx.evaluations += 1
+        ctx.corr_checked += 1
+        want = canvas_outcome_text(coqterm.App('Ok', [(coqterm.App('None', []), r[2])]))
+        if r[0] is not True or im.get('plane') != want['plane'] or im.get('name') is not None:
+            bad += 1
+            ctx.corr_broken('canvas.rs vs coq/C19/CanvasDraw.v (draw / expected_plane)', {'text': t}, im if 'plane' not in im else im['plane'][:2], want['plane'][:2])
+    return bad
+
+
 def canvas_correspondence(ctx, drawings, noise):
     """For every text: canvas_cplane text (Coq, vm_compute) = the outcome of scan + Canvas::plane (dv canvas): information item name,
     every cell of the plane with region number, rectangle and text; Err on both sides for rejected text; never Panic."""
@@ -431,12 +459,13 @@ def run(ctx):
     import time
     cv_t0 = time.time()
     cv_stats, cv_differ = canvas_correspondence(ctx, [c[3] for c in cases[:ctx.pick(300, 8000)]], [txt for _, txt in noisy[::max(1, len(noisy) // ctx.pick(400, 10000))]])
+    cv_regular_bad = regular_drawings(ctx, ctx.pick(60, 2000))
     return ctx.finish(
         rule='tables of the C03 fragment (1..5 inputs, 1..3 outputs, 0..2 annotations, 1..8 rules, all 11 hit-policy markers) drawn in both orientations with every '
              'combination of information item name / allowed values / output label / annotations, random cell widths, alignments, multi-line cells, merged input entries; '
              'every field compared with the drawing, evaluation compared with the XML equivalent on 4 tuples; then 8 single-character corruptions of each of 600 drawings, 2000 arbitrary texts '
              'and 4000 mangled drawings must give Ok or Err; non-trivial = distinct layout shapes',
-        extra_cov={'exhaustive': False, 'drawings': len(cases), 'distribution': hist, 'noise_outcomes': outcome, 'canvas_model': dict(cv_stats, differ=cv_differ, seconds=round(time.time() - cv_t0, 1))},
+        extra_cov={'exhaustive': False, 'drawings': len(cases), 'distribution': hist, 'noise_outcomes': outcome, 'canvas_model': dict(cv_stats, differ=cv_differ, regular_drawings_differ=cv_regular_bad, seconds=round(time.time() - cv_t0, 1))},
         assumptions=['cell texts contain no box-drawing characters', 'allowed values are drawn for all clauses or for none (the text format has one values line)',
                      'in a rules-as-columns table the first input expression is not a hit-policy marker and output names are not numbers (the recogniser would take them for the marker / rule numbers)'],
         trusted=['dv recognize (dmntk_recognizer::build, Recognizer::recognize, build_decision_table_evaluator)', 'props/c19draw.py (the drawing conventions follow /repo/examples)'])
